@@ -1372,10 +1372,15 @@ class ValueObject(Value):
         if self.hasItem(key):
             return self.getItem(key)
         current = self
+        seen = {id(self)}
         while current.hasItem("_proto_"):
             current = current.getItem("_proto_")
             if not current or not current.isObject():
                 break
+            # a chain that leads back into itself has been searched
+            if id(current) in seen:
+                break
+            seen.add(id(current))
             if current.hasItem(key):
                 return current.getItem(key)
         return None
